@@ -1025,11 +1025,12 @@ int32_t jls_core_rd_fsr_level1(struct jls_core_s * self, uint16_t signal_id, int
     }
     ROE(jls_core_rd_chunk(self));  // index
     jls_buf_copy(self->rd_index, self->buf);
-    self->rd_index_chunk = self->chunk_cur;
+    struct jls_core_chunk_s index_chunk = self->chunk_cur;
 
     ROE(jls_core_rd_chunk(self));  // summary
     jls_buf_copy(self->rd_summary, self->buf);
     self->rd_summary_chunk = self->chunk_cur;
+    self->rd_index_chunk = index_chunk;  // valid only with its summary in memory
     return 0;
 }
 
